@@ -361,7 +361,15 @@ def rule_h3_undo(prog: Program, col: Collector) -> None:
               construct="unstep-recompute", necessity="without recomputation the bounds of the larger knowledge state survive the undo")
     dec = [e for e in uft.of_kind("aug") if e.target == A("steps_taken")]
     inc = [e for e in sft.of_kind("aug") if e.target == A("steps_taken")]
-    col.check(len(dec) == 1 and len(inc) == 1 and dec[0].op == "-" and inc[0].op == "+" and dec[0].value == inc[0].value, uref.where(), uref.short,
+    def signed(e):
+        """(sign, magnitude) of an augmented assignment: `x += -1` is `x -= 1`."""
+        v, sgn = e.value, (1 if e.op == "+" else -1 if e.op == "-" else 0)
+        if v[0] == "un" and v[1] == "-":
+            v, sgn = v[2], -sgn
+        elif v[0] == "const" and isinstance(v[1], (int, float)) and v[1] < 0:
+            v, sgn = ("const", -v[1]), -sgn
+        return sgn, v
+    col.check(len(dec) == 1 and len(inc) == 1 and signed(dec[0])[0] == -1 and signed(inc[0])[0] == 1 and signed(dec[0])[1] == signed(inc[0])[1], uref.where(), uref.short,
               "steps_taken is decremented by what step adds", construct="unstep-count",
               necessity="an undo that does not restore the counter makes done (step budget) history dependent")
     ret = _single_return(uft, uref)
